@@ -7,16 +7,8 @@ pub open spec fn hook_pre_c(failed: bool, relies: bool, rel: Rel, st: St, ev: Ev
 }
 
 /// what every hook call leaves behind, whether it succeeded or not
-pub open spec fn hook_frame_c<E>(relies0: bool, relies1: bool, rel0: Rel, rel1: Rel, failed1: bool, le1: Option<E>, res: Result<(), E>) -> bool {
-    relies1 == relies0 && rel1 == rel0 && failed1 == res.is_err() && (res matches Err(e) ==> le1 == Some(e))
-}
-
-/// `replace` is either one Replace event (overriding hooks) or the default delete-then-insert; the
-/// checker state is the same in both cases (see `step_rel`), only the recorded history differs.
-pub open spec fn replace_trace(t0: Seq<Ev>, t1: Seq<Ev>, o: usize, ol: usize, n: usize, nl: usize, is_err: bool) -> bool {
-    t1 == t0.push(Ev::Replace(o, ol, n, nl))
-    || t1 == t0.push(Ev::Delete(o, ol, n)).push(Ev::Insert(o, n, nl))
-    || (is_err && t1 == t0.push(Ev::Delete(o, ol, n)))
+pub open spec fn hook_frame_c<E>(relies0: bool, relies1: bool, rel0: Rel, rel1: Rel, ar0: bool, ar1: bool, failed1: bool, le1: Option<E>, res: Result<(), E>) -> bool {
+    relies1 == relies0 && rel1 == rel0 && ar1 == ar0 && failed1 == res.is_err() && (res matches Err(e) ==> le1 == Some(e))
 }
 
 pub open spec fn hook_pre<D: DiffHook>(d: D, ev: Ev) -> bool {
@@ -24,32 +16,39 @@ pub open spec fn hook_pre<D: DiffHook>(d: D, ev: Ev) -> bool {
 }
 
 pub open spec fn hook_frame<D: DiffHook>(d0: D, d1: D, res: Result<(), D::Error>) -> bool {
-    hook_frame_c(d0.relies(), d1.relies(), d0.rely_rel(), d1.rely_rel(), d1.failed(), d1.last_err(), res)
+    hook_frame_c(d0.relies(), d1.relies(), d0.rely_rel(), d1.rely_rel(), d0.accepts_replace(), d1.accepts_replace(), d1.failed(), d1.last_err(), res)
 }
 
 pub open spec fn fin<D: DiffHook>() -> Seq<Ev> {
     if D::observes_finish() { seq![Ev::Finish] } else { Seq::<Ev>::empty() }
 }
 
+/// what `replace` records: one Replace event (overriding hooks) or the default's Delete, Insert
+pub open spec fn replace_evs<D: DiffHook>(o: usize, ol: usize, n: usize, nl: usize) -> Seq<Ev> {
+    if D::replace_is_atomic() { seq![Ev::Replace(o, ol, n, nl)] } else { seq![Ev::Delete(o, ol, n), Ev::Insert(o, n, nl)] }
+}
+
 //@@ item src/algorithms/hook.rs :: ^pub trait DiffHook\b rw=R4,R0
 pub trait DiffHook: Sized {
     /// The error produced from the hook methods.
     type Error;
-    /*@*/ spec fn trace(&self) -> Seq<Ev>;
-    /*@*/ spec fn failed(&self) -> bool;
-    /*@*/ spec fn relies(&self) -> bool;
-    /*@*/ spec fn rely_rel(&self) -> Rel;
-    /*@*/ spec fn rely_st(&self) -> St;
-    /*@*/ spec fn observes_finish() -> bool;
-    /*@*/ spec fn last_err(&self) -> Option<Self::Error>;
+    /*@*/ spec fn trace(&self) -> Seq<Ev>;                 // history of successful calls received
+    /*@*/ spec fn failed(&self) -> bool;                   // a call has returned Err
+    /*@*/ spec fn last_err(&self) -> Option<Self::Error>;  // the error of that call
+    /*@*/ spec fn relies(&self) -> bool;                   // does this hook depend on being driven by a valid script?
+    /*@*/ spec fn rely_rel(&self) -> Rel;                  // the equality relation it expects the script to respect
+    /*@*/ spec fn rely_st(&self) -> St;                    // the checker state it expects the next event to be valid from
+    /*@*/ spec fn observes_finish() -> bool;               // does `finish` leave a trace (false for the no-op default)
+    /*@*/ spec fn replace_is_atomic() -> bool;             // `replace` records one Replace event (overriding hooks) / Delete+Insert (default)
+    /*@*/ spec fn accepts_replace(&self) -> bool;          // may `replace` be called (false for the Replace adapter: outside the verified envelope)
 
     /// Called when lines with indices `old_index` (in the old version) and
     /// `new_index` (in the new version) start an section equal in both
     /// versions, of length `len`.
     fn equal(&mut self, old_index: usize, new_index: usize, len: usize) -> (res: Result<(), Self::Error>)
     /*@*/     requires hook_pre_c((*old(self)).failed(), (*old(self)).relies(), (*old(self)).rely_rel(), (*old(self)).rely_st(), Ev::Equal(old_index, new_index, len)),
-    /*@*/     ensures (*final(self)).trace() == (*old(self)).trace().push(Ev::Equal(old_index, new_index, len)),
-    /*@*/         hook_frame_c((*old(self)).relies(), (*final(self)).relies(), (*old(self)).rely_rel(), (*final(self)).rely_rel(), (*final(self)).failed(), (*final(self)).last_err(), res),
+    /*@*/     ensures hook_frame_c((*old(self)).relies(), (*final(self)).relies(), (*old(self)).rely_rel(), (*final(self)).rely_rel(), (*old(self)).accepts_replace(), (*final(self)).accepts_replace(), (*final(self)).failed(), (*final(self)).last_err(), res),
+    /*@*/         res.is_ok() ==> (*final(self)).trace() == (*old(self)).trace().push(Ev::Equal(old_index, new_index, len)),
     /*@*/         res.is_ok() ==> (*final(self)).rely_st() == step_rel((*old(self)).rely_rel(), (*old(self)).rely_st(), Ev::Equal(old_index, new_index, len)),
     ;
 
@@ -62,8 +61,8 @@ pub trait DiffHook: Sized {
         new_index: usize,
     ) -> (res: Result<(), Self::Error>)
     /*@*/     requires hook_pre_c((*old(self)).failed(), (*old(self)).relies(), (*old(self)).rely_rel(), (*old(self)).rely_st(), Ev::Delete(old_index, old_len, new_index)),
-    /*@*/     ensures (*final(self)).trace() == (*old(self)).trace().push(Ev::Delete(old_index, old_len, new_index)),
-    /*@*/         hook_frame_c((*old(self)).relies(), (*final(self)).relies(), (*old(self)).rely_rel(), (*final(self)).rely_rel(), (*final(self)).failed(), (*final(self)).last_err(), res),
+    /*@*/     ensures hook_frame_c((*old(self)).relies(), (*final(self)).relies(), (*old(self)).rely_rel(), (*final(self)).rely_rel(), (*old(self)).accepts_replace(), (*final(self)).accepts_replace(), (*final(self)).failed(), (*final(self)).last_err(), res),
+    /*@*/         res.is_ok() ==> (*final(self)).trace() == (*old(self)).trace().push(Ev::Delete(old_index, old_len, new_index)),
     /*@*/         res.is_ok() ==> (*final(self)).rely_st() == step_rel((*old(self)).rely_rel(), (*old(self)).rely_st(), Ev::Delete(old_index, old_len, new_index)),
     ;
 
@@ -76,8 +75,8 @@ pub trait DiffHook: Sized {
         new_len: usize,
     ) -> (res: Result<(), Self::Error>)
     /*@*/     requires hook_pre_c((*old(self)).failed(), (*old(self)).relies(), (*old(self)).rely_rel(), (*old(self)).rely_st(), Ev::Insert(old_index, new_index, new_len)),
-    /*@*/     ensures (*final(self)).trace() == (*old(self)).trace().push(Ev::Insert(old_index, new_index, new_len)),
-    /*@*/         hook_frame_c((*old(self)).relies(), (*final(self)).relies(), (*old(self)).rely_rel(), (*final(self)).rely_rel(), (*final(self)).failed(), (*final(self)).last_err(), res),
+    /*@*/     ensures hook_frame_c((*old(self)).relies(), (*final(self)).relies(), (*old(self)).rely_rel(), (*final(self)).rely_rel(), (*old(self)).accepts_replace(), (*final(self)).accepts_replace(), (*final(self)).failed(), (*final(self)).last_err(), res),
+    /*@*/         res.is_ok() ==> (*final(self)).trace() == (*old(self)).trace().push(Ev::Insert(old_index, new_index, new_len)),
     /*@*/         res.is_ok() ==> (*final(self)).rely_st() == step_rel((*old(self)).rely_rel(), (*old(self)).rely_st(), Ev::Insert(old_index, new_index, new_len)),
     ;
 
@@ -98,22 +97,19 @@ pub trait DiffHook: Sized {
         new_index: usize,
         new_len: usize,
     ) -> (res: Result<(), Self::Error>)
-    /*@*/     requires hook_pre_c((*old(self)).failed(), (*old(self)).relies(), (*old(self)).rely_rel(), (*old(self)).rely_st(), Ev::Replace(old_index, old_len, new_index, new_len)),
-    /*@*/     ensures hook_frame_c((*old(self)).relies(), (*final(self)).relies(), (*old(self)).rely_rel(), (*final(self)).rely_rel(), (*final(self)).failed(), (*final(self)).last_err(), res),
+    /*@*/     requires hook_pre_c((*old(self)).failed(), (*old(self)).relies(), (*old(self)).rely_rel(), (*old(self)).rely_st(), Ev::Replace(old_index, old_len, new_index, new_len)), (*old(self)).accepts_replace(),
+    /*@*/     ensures hook_frame_c((*old(self)).relies(), (*final(self)).relies(), (*old(self)).rely_rel(), (*final(self)).rely_rel(), (*old(self)).accepts_replace(), (*final(self)).accepts_replace(), (*final(self)).failed(), (*final(self)).last_err(), res),
+    /*@*/         res.is_ok() ==> (*final(self)).trace() == (if Self::replace_is_atomic() { (*old(self)).trace().push(Ev::Replace(old_index, old_len, new_index, new_len)) }
+    /*@*/             else { (*old(self)).trace().push(Ev::Delete(old_index, old_len, new_index)).push(Ev::Insert(old_index, new_index, new_len)) }),
     /*@*/         res.is_ok() ==> (*final(self)).rely_st() == step_rel((*old(self)).rely_rel(), (*old(self)).rely_st(), Ev::Replace(old_index, old_len, new_index, new_len)),
-    /*@*/         replace_trace((*old(self)).trace(), (*final(self)).trace(), old_index, old_len, new_index, new_len, res.is_err()),
-    {
-        /*@*/ proof { reveal(step_rel); }
-        self.delete(old_index, old_len, new_index)?;
-        self.insert(old_index, new_index, new_len)
-    }
+    ;
 
     /// Always called at the end of the algorithm.
     #[inline(always)]
     fn finish(&mut self) -> (res: Result<(), Self::Error>)
     /*@*/     requires !(*old(self)).failed(), (*old(self)).relies() ==> wf((*old(self)).rely_st()),
-    /*@*/     ensures (*final(self)).trace() == (*old(self)).trace() + (if Self::observes_finish() { seq![Ev::Finish] } else { Seq::<Ev>::empty() }),
-    /*@*/         hook_frame_c((*old(self)).relies(), (*final(self)).relies(), (*old(self)).rely_rel(), (*final(self)).rely_rel(), (*final(self)).failed(), (*final(self)).last_err(), res),
+    /*@*/     ensures hook_frame_c((*old(self)).relies(), (*final(self)).relies(), (*old(self)).rely_rel(), (*final(self)).rely_rel(), (*old(self)).accepts_replace(), (*final(self)).accepts_replace(), (*final(self)).failed(), (*final(self)).last_err(), res),
+    /*@*/         res.is_ok() ==> (*final(self)).trace() == (*old(self)).trace() + (if Self::observes_finish() { seq![Ev::Finish] } else { Seq::<Ev>::empty() }),
     /*@*/         res.is_ok() ==> (*final(self)).rely_st() == (if Self::observes_finish() { step_rel((*old(self)).rely_rel(), (*old(self)).rely_st(), Ev::Finish) } else { (*old(self)).rely_st() }),
     ;
 }
@@ -129,6 +125,8 @@ impl<'a, D: DiffHook + 'a> DiffHook for &'a mut D {
     /*@*/ open spec fn rely_st(&self) -> St { (**self).rely_st() }
     /*@*/ open spec fn observes_finish() -> bool { D::observes_finish() }
     /*@*/ open spec fn last_err(&self) -> Option<Self::Error> { (**self).last_err() }
+    /*@*/ open spec fn replace_is_atomic() -> bool { D::replace_is_atomic() }
+    /*@*/ open spec fn accepts_replace(&self) -> bool { (**self).accepts_replace() }
 
     #[inline(always)]
     fn equal(&mut self, old_index: usize, new_index: usize, len: usize) -> (res: Result<(), Self::Error>)
@@ -206,6 +204,8 @@ impl<D: DiffHook> DiffHook for NoFinishHook<D> {
     /*@*/ closed spec fn rely_st(&self) -> St { self.0.rely_st() }
     /*@*/ closed spec fn observes_finish() -> bool { false }
     /*@*/ closed spec fn last_err(&self) -> Option<Self::Error> { self.0.last_err() }
+    /*@*/ closed spec fn replace_is_atomic() -> bool { D::replace_is_atomic() }
+    /*@*/ closed spec fn accepts_replace(&self) -> bool { self.0.accepts_replace() }
 
     #[inline(always)]
     fn equal(&mut self, old_index: usize, new_index: usize, len: usize) -> (res: Result<(), Self::Error>)
